@@ -408,10 +408,10 @@ class StmtMixin:
             ks = self.elem_sort_key(src.py[2], fr)
             return SV(keys, "list"), lambda j: SV(None, "tuple", py=("pair", [self.with_sort(v.sat(keys, j), ks), self.with_sort(v.dget(d.t, v.sat(keys, j)), es)]))
         if src.pt == "dvalues":
-            d = src.py[1]
-            keys = v.dkeys(d.t)
+            # `_seq` of a loop over d.values() is the list of values (in key order)
+            vals = self.as_seq(src, st, fr, s)
             es = self.elem_sort(src.py[2], fr) if src.py[2] is not None else "any"
-            return SV(keys, "list"), lambda j: self.with_sort(v.dget(d.t, v.sat(keys, j)), es)
+            return vals, lambda j: self.with_sort(v.sat(vals.t, j), es)
         if src.pt == "enumerate":
             inner_seq, inner_elem = self.iter_view(src.py[1], s, st, fr)
             return inner_seq, lambda j: SV(None, "tuple", py=("pair", [SV(j, "int"), inner_elem(j)]))
@@ -471,6 +471,8 @@ class StmtMixin:
             if n in h.env and h.env[n].t is not None:
                 old = h.env[n]
                 h.env[n] = self.fresh_sv("lv_" + n, old.pt)
+                if old.py and old.py[0] == "defaultdict":
+                    h.env[n].py = old.py
                 if old.pt not in NATIVE and old.pt != "any":
                     tyname = {"list": "list", "tuple": "tuple", "dict": "dict"}.get(old.pt)
                     if tyname:
